@@ -434,6 +434,14 @@ func TestC12Enum(t *testing.T) {
 
 func TestC12Regress(t *testing.T) {
 	for _, s := range loadSaved(t, "C12") {
+		var probe struct {
+			Conc int `json:"concurrent_connections"`
+		}
+		mustUnmarshal(t, s, &probe)
+		if probe.Conc > 0 {
+			runC12Concurrent(t)
+			continue
+		}
 		var c c12Case
 		mustUnmarshal(t, s, &c)
 		runC12(t, c)
